@@ -128,7 +128,7 @@ Lemma kwU_ok : lex_ok kwU. Proof. split; [reflexivity|repeat constructor]. Qed.
 Definition u_item (nm : ident) (bl : list lub) : item :=
   let bbl := map bub bl in
   {| it_toks := union_toks (ibytes nm) bbl; it_need := usum bbl + 4; it_fneed := ufsum bbl + 4;
-     it_upd := fun f => add_union f (union_of (ibytes nm) bbl); it_text := union_text (ibytes nm) bbl |}.
+     it_upd := fun f => add_union f (union_of (ibytes nm) bbl); it_text := union_text (ibytes nm) bbl; it_blank := true |}.
 Definition u_x (nm : ident) (bl : list lub) : xitem :=
   {| x_lex := [kwU; Wi nm; ocuL; NLx] ++ flat_map ub_lex bl ++ [ccuL; NLx];
      x_lay := [([], kwU); (sp, Wi nm); (sp, ocuL); ([], NLx)] ++ flat_map ub_layout bl ++ [([], ccuL); ([], NLx)] |}.
@@ -150,7 +150,7 @@ Proof.
   intros Hn Hf Hu Hne. assert (Hne' : map bub bl <> []) by (destruct bl; [congruence|discriminate]). constructor.
   - intros g f tail c. cbn [u_item it_need it_toks it_upd]. exists (usum (map bub bl) + S g). split; [lia|].
     replace (usum (map bub bl) + 4 + g) with (S (usum (map bub bl) + S (S (S g)))) by lia. apply (top_union _ _ _ _ _ _ Hu Hne').
-  - intros g out nl tail c. cbn [u_item it_fneed it_toks it_text]. exists (ufsum (map bub bl) + S (S g)). split; [lia|].
+  - intros g out nl tail c. cbn [u_item it_fneed it_toks it_text it_blank]. rewrite andb_true_r. exists (ufsum (map bub bl) + S (S g)). split; [lia|].
     replace (ufsum (map bub bl) + 4 + g) with (S (S (ufsum (map bub bl) + S (S g)))) by lia. apply (fmt_top_union _ _ _ _ _ _ _ Hne').
   - cbn [u_x x_lex u_item it_toks]. unfold union_toks. rewrite !map_app. cbn [map]. rewrite (tok_of_Wi nm Hn).
     rewrite (pf_toks ub_lex bub ub_toks lub_ok ub_toks_tie bl Hf). reflexivity.
